@@ -85,7 +85,7 @@ def discharge_batch(obls: List[Obligation], idxs: List[int], want_smt2: bool = F
 
     out: Dict[int, Dict] = {}
     todo = []
-    axioms = sym.string_axioms()
+    axioms = sym.string_axioms() + sym.global_axioms()
     for i in idxs:
         ob = obls[i]
         if not getattr(ob, "_axioms_added", False):
